@@ -553,6 +553,19 @@ CONTRACTS = [
               "E": "all(implies(t in res, (e in E(res[t])) == (pair(t, e) in E(self))) for t in Int for e in Tuple)",
               "W": "all(implies(t in res and pair(t, e) in E(self), W(res[t], e) == W(self, pair(t, e))) for t in Int for e in Tuple)",
               "V": "all(implies(t in res, (n in V(res[t])) == (any(pair(t, e) in E(self) and n in e for e in Tuple) or count(_done1, n) >= 1 or (n == node and t in _done2))) for t in Int for n in Node)"}}),
+    # per-node view of the same numbers: every node exactly once (a dict), its value the degree under the same filter
+    Contract("degree_sequence[TemporalHypergraph]", "hypergraphx/measures/degree.py", ["degree_sequence"], properties=["C03", "C08"],
+      params={"hg": "Obj[TemporalHypergraph]", "order": "Opt[Int]", "size": "Opt[Int]"}, result="Map[Int,Int]", pure=True,
+      requires={"wf": "wf(hg)"},
+      raises={"ValueError": "order is not None and size is not None"},
+      ensures={"dom": "all((n in result) == (n in V(hg)) for n in Node)",
+               "val": "all(result[n] == card({k for k in E(hg) if n in snd(k) and sel(hg, k, order, size, False)}) for n in V(hg))"}),
+    C("degree_sequence", params={"order": "Opt[Int]", "size": "Opt[Int]"}, result="Map[Int,Int]", pure=True,
+      requires={"wf": "wf(self)"},
+      raises={"ValueError": "order is not None and size is not None"},
+      ensures={"dom": "all((n in result) == (n in V(self)) for n in Node)",
+               "val": "all(result[n] == card({k for k in E(self) if n in snd(k) and sel(self, k, order, size, False)}) for n in V(self))"},
+      properties=["C03", "C08"]),
     Contract("degree[TemporalHypergraph]", "hypergraphx/measures/degree.py", ["degree"], properties=["C03", "C08"],
       params={"hg": "Obj[TemporalHypergraph]", "node": "Node", "order": "Opt[Int]", "size": "Opt[Int]"}, result="Int", pure=True,
       requires={"wf": "wf(hg)"},
